@@ -136,7 +136,7 @@ def c17_jobs(prop, tier):
             b = (cfg, 'std'); o = (cfg, feat)
             common = {'cfg': cfg, 'feat': 'std', 'base': list(b), 'other': list(o), 'needs': [list(b), list(o)], 'props': [prop]}
             jobs.append(dict(common, kind='c17_id', name='mir_identity_std_vs_' + feat, op='mir_identity_std_vs_' + feat, N=0))
-            nm = 2 if tier == 'quick' else 3
+            nm = 3 if tier == 'quick' else 4
             for N in range(0, nm + 1):
                 for op in MUTATORS:
                     if N == 0 and op in NEEDS_NODES: continue
@@ -180,6 +180,10 @@ def history_jobs(prop, tier):
 def plan(prop, tier):
     jobs = mutator_jobs(prop, tier)
     if prop in ('C01', 'C02', 'C08', 'C12'): jobs += history_jobs(prop, tier)
+    if prop in ('C03', 'C08'):
+        for N in range(1, (3 if tier == 'quick' else 4) + 1):
+            jobs.append({'kind': 'custom', 'module': 'multistep', 'func': 'run_append_value_equiv_job', 'name': 'append_value_equiv', 'op': 'append_value_equiv',
+                         'N': N, 'cfg': 'dev', 'feat': 'std', 'props': [prop]})
     if prop == 'C08': jobs += [j for j in value_jobs('C08', tier) if j['func'] == 'run_clear_job']
     if prop == 'C14': jobs += pretty_jobs(prop, tier)
     if prop == 'C17': jobs += c17_jobs(prop, tier)
